@@ -100,10 +100,12 @@ func checkPosaSync(c *core.Ctx, pkg, typ string, full bool) {
 				}
 				return false, false
 			}}, adds, "addHeader", nil)
-			checkPosaScanDepth(c, pkg, fn, func(v ssa.Value) (int, bool) {
+			gpc := func(v ssa.Value) (int, bool) {
 				cl, idx := ir.CallOf(v)
 				return idx, cl != nil && ir.CalleeIs(cl, gp)
-			})
+			}
+			checkPosaScanDepth(c, pkg, fn, gpc)
+			checkPosaEpochWindow(c, fn, gpc)
 		}
 		// valid flag
 		var flagIf *ssa.If
